@@ -145,32 +145,25 @@ class BuiltinMixin:
         return V(BOOL, z3.Exists([k], z3.And(rng, body)))
 
     def b_map(self, args, kw, st, exits, line):
-        fn, it = args[0], args[1]
-        r = self.iter_seq(it, st)
-        if r is None:
-            raise Unsupported('map over non-sequence')
-        n, g = r
-        k = z3.Int(fresh_name('m'))
-        sub = st.copy()
-        sub.assume(z3.And(k >= 0, k < n))
-        base = len(sub.pc)
-        ex = []
-        res = list(self.apply(fn, [g(k)], {}, sub, ex, None))
-        if len(res) != 1 or ex:
-            raise Unsupported('map function forks or may raise')
-        rst, elt = res[0]
-        if rst.pc[base:]:
-            raise Unsupported('map function introduces facts')
-        out = fresh(TSeq(elt.ty), 'map')
-        st.assume(z3.Length(out.t) == n)
-        st.assume(z3.ForAll([k], z3.Implies(z3.And(k >= 0, k < n), out.t[k] == elt.t), patterns=[out.t[k]]))
-        return out
+        # lazy: consumed by any/all/list/for through iter_seq
+        return V(TPy('map'), (args[0], args[1]))
 
     def b_type(self, args, kw, st, exits, line):
         v = args[0]
         if isinstance(v.ty, TRef):
             return V(CLSV, self.typeof(v.t))
         return V(TObj('type'), z3.Const('type_of_' + _san(v.ty.key), TObj('type').sort()))
+
+    def b_islice(self, args, kw, st, exits, line):
+        s_ = self.seq_of(args[0], st)
+        n = z3.Length(s_.t)
+        lo, hi = args[1].t, args[2].t
+        if not self.raise_if(st, z3.Or(lo < 0, hi < 0), 'ValueError', exits, line, 'islice bounds'):
+            return None
+        lo2 = z3.If(lo > n, n, lo)
+        hi2 = z3.If(hi > n, n, hi)
+        hi2 = z3.If(hi2 < lo2, lo2, hi2)
+        return V(s_.ty, z3.Extract(s_.t, lo2, hi2 - lo2))
 
     def b_getattr(self, args, kw, st, exits, line):
         raise Unsupported('getattr')
